@@ -1,0 +1,75 @@
+//go:build verif
+
+package p2pke
+
+import (
+	"sync/atomic"
+
+	"golang.org/x/crypto/blake2b"
+)
+
+// VerifState returns the handshake progress index and the next outgoing counter.
+// It is only compiled with the verif build tag.
+func (s *Session) VerifState() (hsIndex uint8, nonce uint64) {
+	return s.hsIndex, atomic.LoadUint64(&s.nonce)
+}
+
+// VerifSetNonce sets the next outgoing counter (to reach the message limit without 2^32 sends).
+func (s *Session) VerifSetNonce(n uint64) {
+	atomic.StoreUint64(&s.nonce, n)
+}
+
+// VerifSlot is a read-only projection of one of the channel's three session slots.
+type VerifSlot struct {
+	Present   bool
+	IsInit    bool
+	Ready     bool
+	HsIndex   uint8
+	Nonce     uint64
+	ID        [32]byte
+	RemoteKey []byte
+	HelloTime []byte
+}
+
+// VerifSnapshot is a read-only projection of the channel state, taken under the channel mutex.
+type VerifSnapshot struct {
+	Slots          [3]VerifSlot
+	RemoteKeySet   bool
+	RemoteKeyHash  [32]byte
+	ReadyClosed    bool
+	RekeyPending   bool
+	HsPending      bool
+	LastReceivedNs int64
+}
+
+func (c *Channel) VerifSnapshot() (ret VerifSnapshot) {
+	c.mu.RLock()
+	defer c.mu.RUnlock()
+	for i, se := range c.sessions {
+		if se.Session == nil {
+			continue
+		}
+		s := se.Session
+		sl := VerifSlot{Present: true, IsInit: s.isInit, Ready: s.IsReady(), HsIndex: s.hsIndex, Nonce: atomic.LoadUint64(&s.nonce), ID: se.ID}
+		if !s.remoteKey.IsZero() {
+			sl.RemoteKey = append([]byte{}, s.remoteKey.Key.Data...)
+		}
+		sl.HelloTime = s.initHelloTime.Marshal()
+		ret.Slots[i] = sl
+	}
+	if !c.remoteKey.IsZero() {
+		ret.RemoteKeySet = true
+		ret.RemoteKeyHash = blake2b.Sum256(c.remoteKey.Data)
+	}
+	select {
+	case <-c.ready:
+		ret.ReadyClosed = true
+	default:
+	}
+	ret.RekeyPending = c.rekeyTimer.IsPending()
+	ret.HsPending = c.handshakeTimer.IsPending()
+	if !c.lastReceived.IsZero() {
+		ret.LastReceivedNs = c.lastReceived.UnixNano()
+	}
+	return ret
+}
